@@ -320,6 +320,13 @@ def run_bytes(rec, tier):
             data = xorguess_data(klen, kb)
             rec.mark("states", data, True)
             scan_case(rec, md(), data, 10, {"kind": "xorguess", "klen": klen, "kb": kb}, 3000 + klen, limit=30)
+    # arrays of pairwise distinct values (permutation tables: no byte repeats) of every size around plausible thresholds, key-guessing form
+    for n in (2, 16, 64, 100, 128, 150, 151, 200, 255, 256):
+        for suffix in (b" -bxor $k", b"; $x -bxor $S[$i]", b" -bxor", b""):
+            for fmt in (b"%d", b"0x%02x"):
+                data = b"$S = " + b",".join(fmt % ((i * 167 + 13) % 256) for i in range(n)) + suffix
+                rec.mark("states", data, True)
+                scan_case(rec, md(), data, 10, {"kind": "scan", "registry": "fixture", "data": data, "depth": 10}, 2000 + n, limit=30)
     rec.sample({"family": "byte-array", "n": n, "elem": elem, "suffix": suffix})
 
 
